@@ -31,7 +31,7 @@ CInit ==
 \* what `update` returns for an event
 ProgFor(ev) ==
   CASE ev.kind = "run"  -> table.progs[ev.p + 1]
-    [] ev.kind = "noop" -> DoneProg
+    [] ev.kind \in {"noop", "data", "text"} -> DoneProg     \* (payload-carrying events the app only records)
     [] ev.kind = "ev"   -> IF ToString(ev.tag) \in DOMAIN table.follow
                            THEN table.progs[table.follow[ToString(ev.tag)] + 1] ELSE DoneProg
 
